@@ -5,6 +5,7 @@ import re
 import vlib
 import l2
 import meta
+import l2gen
 
 TRUSTED_BASE = [
     'Lean 4.33 kernel; axioms per theorem as listed under coverage.theorems (allow-list: propext, Classical.choice, Quot.sound); no sorry/admit/native_decide/bv_decide/own axioms (grep + #print axioms on every run)',
@@ -50,6 +51,44 @@ def extra_cmp_l2(fam, kinds, nq, nt, laws=False):
                                               property=prop, **b))
         return cov
     return run
+
+def extra_rustc(gen, nq, nt, key_of=None):
+    """well-typed generated programs compiled metadata-only under #![deny(warnings)]; any diagnostic is a violation"""
+    def run(prop, tier, seed, violation, known, known_hit, notes):
+        ok, log = l2.build_pm()
+        if not ok:
+            violation('pm-build', dict(what='the proc-macro does not build', log=log), no_input=True)
+            return {}
+        n = nq if tier == 'quick' else nt
+        cases = [gen(seed, i) for i in range(n)]
+        res = l2.rustc_verdicts(prop, cases)
+        dist = {}
+        nbad = 0
+        for c, rc, diags, path in res:
+            for k, v in c.get('desc', {}).items():
+                if isinstance(v, (str, bool, int)):
+                    dist[f'{k}={v}'] = dist.get(f'{k}={v}', 0) + 1
+            if c.get('scope'):
+                dist['scope=' + c['scope']] = dist.get('scope=' + c['scope'], 0) + 1
+            for t in c.get('traits', []):
+                dist['trait=' + t] = dist.get('trait=' + t, 0) + 1
+            if rc != 0 or diags:
+                key = key_of(c, diags) if key_of else None
+                if key and key in known:
+                    if key not in [k.split(' ')[0] for k in known_hit]:
+                        known_hit.append(f'{key} {known[key]}')
+                    continue
+                nbad += 1
+                if nbad <= 5:
+                    violation(f'rustc-{nbad}', dict(
+                        what='rustc rejects (or warns about) a program in which derive_ex reported no error and every user-written piece is well-typed',
+                        property=prop, case=c['id'], item=c.get('item'), scope=c.get('scope'), names=c.get('names'),
+                        diagnostics=diags[:6], program=path, finding_key=key,
+                        replay_hint=f'rustc --edition 2021 --crate-type lib --emit=metadata --extern derive_ex={l2.SO} {path}'))
+        return dict(l2=dict(programs=len(res), rejected=nbad, distribution=dist, seed=seed,
+                            sample_programs=[c.get('item') for c in cases[:3]]))
+    return run
+
 
 def extra_meta(which, nq, nt):
     """metamorphic relations between real expansions (model-free verdict)"""
@@ -156,6 +195,22 @@ PROPS.update({
                                  'DX.default_enum_rejections', 'DX.default_enum_follows_doc'])],
         l1=[('basic', 4000, 150000), ('all', 3000, 100000)],
         labels=r':Default$',
+    ),
+    'C13': dict(
+        theorems=[],
+        l1=[('all', 2000, 50000)],
+        labels=r'^e\d+:',
+        kinds=('panic', 'nondet', 'parse'),
+        extra=extra_rustc(l2gen.gen_c13_case, 600, 9000),
+        level='exploration',
+    ),
+    'C20': dict(
+        theorems=[],
+        l1=[('all', 2000, 50000)],
+        labels=r'^e\d+:',
+        kinds=('panic', 'nondet', 'parse'),
+        extra=extra_rustc(l2gen.gen_c20_case, 600, 15000),
+        level='exploration',
     ),
     'C14': dict(
         theorems=[(CMP + 'C14', ['DX.isMatch_extend', 'DX.reemit_exact_struct', 'DX.reemit_exact_enum',
